@@ -287,7 +287,7 @@ def gen_data(r, tbl: Table, depth, probe, clsname=None, generic=False):
             # the function is applied to non-None values only, so the declared type must not be nullable (known
             # finding schema-overridden-nullable); a container return annotation makes build_json_schema recurse
             # without end (C20's business): scalar return types only
-            if r.random() < 0.6 and not nullable_spec(f["type"]) and not contains_tvar(f["type"]):
+            if r.random() < 0.6 and (probe or not nullable_spec(f["type"])) and not contains_tvar(f["type"]):
                 rt = r.choice([("str",), ("int",), ("bool",)])
                 f["ser"] = ("fn", rt, gen_value(r, rt, tbl, False, 2), f"_ser_{name}_{i}")
             elif not contains_tvar(f["type"]):
